@@ -16,6 +16,10 @@ open Conc
 @[simp] theorem setThread_locks (g : G) (t : Tid) (th : Thread) : (g.setThread t th).locks = g.locks := rfl
 @[simp] theorem setThread_nextId (g : G) (t : Tid) (th : Thread) : (g.setThread t th).nextId = g.nextId := rfl
 @[simp] theorem setThread_now (g : G) (t : Tid) (th : Thread) : (g.setThread t th).now = g.now := rfl
+@[simp] theorem setThread_vals (g : G) (t : Tid) (th : Thread) : (g.setThread t th).vals = g.vals := rfl
+@[simp] theorem setThread_keep (g : G) (t : Tid) (th : Thread) : (g.setThread t th).keep = g.keep := rfl
+@[simp] theorem setLock_vals (g : G) (i : Nat) (l : CLock) : (g.setLock i l).vals = g.vals := rfl
+@[simp] theorem setLock_keep (g : G) (i : Nat) (l : CLock) : (g.setLock i l).keep = g.keep := rfl
 @[simp] theorem setLock_threads (g : G) (i : Nat) (l : CLock) : (g.setLock i l).threads = g.threads := rfl
 @[simp] theorem setLock_store (g : G) (i : Nat) (l : CLock) : (g.setLock i l).store = g.store := rfl
 @[simp] theorem setLock_keys (g : G) (i : Nat) (l : CLock) : (g.setLock i l).keys = g.keys := rfl
@@ -40,7 +44,7 @@ inductive Step (life : Nat) (g : G) (t : Tid) : G → Prop
       Step life g t (g.setThread t { g.threads t with pc := .atGet1 })
   | get1Hit (hpc : (g.threads t).pc = .atGet1) (k : Key) (hk : (g.threads t).req.key = some k) (r : Tid)
       (hl : lookup g k = some r) :
-      Step life g t (g.setThread t { g.threads t with pc := .done, out := .replay r })
+      Step life g t (g.setThread t { g.threads t with pc := .done, out := .replay r, ans := g.vals k })
   | get1Miss (hpc : (g.threads t).pc = .atGet1) (k : Key) (hk : (g.threads t).req.key = some k)
       (hl : lookup g k = none) :
       Step life g t (g.setThread t { g.threads t with pc := .atLock })
@@ -59,16 +63,17 @@ inductive Step (life : Nat) (g : G) (t : Tid) : G → Prop
         { g.threads t with pc := .atGet2 })
   | get2Hit (hpc : (g.threads t).pc = .atGet2) (k : Key) (hk : (g.threads t).req.key = some k) (r : Tid)
       (hl : lookup g k = some r) :
-      Step life g t (g.setThread t { g.threads t with pc := .atUnlock, out := .replay r })
+      Step life g t (g.setThread t { g.threads t with pc := .atUnlock, out := .replay r, ans := g.vals k })
   | get2Miss (hpc : (g.threads t).pc = .atGet2) (k : Key) (hk : (g.threads t).req.key = some k)
       (hl : lookup g k = none) :
       Step life g t (g.setThread t { g.threads t with pc := .atHandler })
   | handlerFail (hpc : (g.threads t).pc = .atHandler) (hf : (g.threads t).req.fails = true) :
       Step life g t (g.setThread t { g.threads t with pc := .atUnlock, out := .errHandler, ran := true })
   | handlerOk (hpc : (g.threads t).pc = .atHandler) (hf : (g.threads t).req.fails = false) :
-      Step life g t (g.setThread t { g.threads t with pc := .atSet, ran := true, doneAt := g.now })
+      Step life g t (g.setThread t { g.threads t with pc := .atSet, ran := true, doneAt := g.now, ans := some (g.threads t).req.resp })
   | set (hpc : (g.threads t).pc = .atSet) (k : Key) (hk : (g.threads t).req.key = some k) :
-      Step life g t ({ g with store := fun k' => if k' = k then some (t, g.now + life) else g.store k' }.setThread t
+      Step life g t ({ g with store := fun k' => if k' = k then some (t, g.now + life) else g.store k',
+                               vals := fun k' => if k' = k then some (recorded g.keep (g.threads t).req.resp) else g.vals k' }.setThread t
         { g.threads t with pc := .atUnlock, out := .own, stored := true })
   | unlockCall (hpc : (g.threads t).pc = .atUnlock) :
       Step life g t (g.setThread t { g.threads t with pc := .unlockLookup })
@@ -92,7 +97,7 @@ inductive Step (life : Nat) (g : G) (t : Tid) : G → Prop
             locked := (g.locks (g.threads t).lk).locked - 1, users := (g.locks (g.threads t).lk).users.erase t }).setThread t
           { g.threads t with pc := .done })
   | handlerB (hpc : (g.threads t).pc = .atHandlerB) :
-      Step life g t (g.setThread t { g.threads t with pc := .done, ran := true, out := if (g.threads t).req.fails then .errHandler else .own })
+      Step life g t (g.setThread t { g.threads t with pc := .done, ran := true, out := if (g.threads t).req.fails then .errHandler else .own, ans := if (g.threads t).req.fails then none else some (g.threads t).req.resp })
   -- faults
   | faultGet1 (hpc : (g.threads t).pc = .atGet1) :
       Step life g t (g.setThread t { g.threads t with pc := .done, out := .errGet1 })
@@ -101,7 +106,9 @@ inductive Step (life : Nat) (g : G) (t : Tid) : G → Prop
   | faultGet2 (hpc : (g.threads t).pc = .atGet2) :
       Step life g t (g.setThread t { g.threads t with pc := .atUnlock, out := .errGet2 })
   | faultSet (hpc : (g.threads t).pc = .atSet) :
-      Step life g t (g.setThread t { g.threads t with pc := .atUnlock, out := .errSet })
+      Step life g t (g.setThread t { g.threads t with pc := .atUnlock, out := .errSet, ans := none })
+  | faultUnlock (hpc : (g.threads t).pc = .atUnlock) :
+      Step life g t (g.setThread t { g.threads t with pc := .leaked })
 
 theorem step_of_stepThr (life : Nat) {g g' : G} {t : Tid} (h : stepThr life g t = some g') : Step life g t g' := by
   cases hpc : (g.threads t).pc <;> simp [stepThr, hpc] at h
@@ -176,6 +183,7 @@ theorem step_of_stepFault (life : Nat) {g g' : G} {t : Tid} (h : stepFault g t =
   · subst h; exact .faultLock hpc
   · subst h; exact .faultGet2 hpc
   · subst h; exact .faultSet hpc
+  · subst h; exact .faultUnlock hpc
 
 /-- every enabled action is a tick or a `Step` of some thread -/
 theorem step_cases (life : Nat) {g g' : G} {a : Act} (h : step life g a = some g') :
